@@ -278,7 +278,7 @@ func programs(thorough bool) []program {
 	}
 	interesting := func(th []string) bool {
 		all := strings.Join(th, "")
-		return strings.ContainsAny(all, "SR") // at least one queue operation
+		return strings.ContainsAny(all, "SRC") // at least one queue operation (the final drain is one too)
 	}
 	for _, cap := range []int{0, 1, 2} {
 		for i, a := range seqs {
